@@ -13,6 +13,7 @@ import (
 	"encoding/json"
 	"fmt"
 	"sort"
+	"strconv"
 
 	cy "github.com/specterops/dawgs/cypher/models/cypher"
 	"github.com/specterops/dawgs/graph"
@@ -100,6 +101,9 @@ func denumber(v any) any {
 	case json.Number:
 		if i, err := t.Int64(); err == nil {
 			return i
+		}
+		if u, err := strconv.ParseUint(string(t), 10, 64); err == nil {
+			return u
 		}
 		f, _ := t.Float64()
 		return f
